@@ -40,14 +40,14 @@ def main():
     if out.strip():
         print('worktree not clean:', out)
         return 2
-    rc, out = sh('timeout 600 /venv/bin/python %s' % demo, cwd=wt)
+    rc, out = sh('PYTHONPATH=%s timeout 600 /venv/bin/python %s' % (wt, demo), cwd=wt)
     res['demo_clean_exit'] = rc
     res['ran'].append('clean tree: python demo.py -> exit %d: %s' % (rc, out.strip().splitlines()[-1:] ))
     rc, out = sh('git apply %s' % patch, cwd=wt)
     if rc != 0:
         print('patch does not apply:', out)
         return 2
-    rc, out = sh('timeout 600 /venv/bin/python %s' % demo, cwd=wt)
+    rc, out = sh('PYTHONPATH=%s timeout 600 /venv/bin/python %s' % (wt, demo), cwd=wt)
     res['demo_patched_exit'] = rc
     res['ran'].append('patched tree: python demo.py -> exit %d: %s' % (rc, out.strip().splitlines()[-1:]))
     rc, out = sh('timeout 1500 /venv/bin/python -m pytest -q -p no:cacheprovider --timeout=900 mpmath/tests 2>&1 | tail -3', cwd=wt)
